@@ -131,6 +131,10 @@ type Config struct {
 	OptSeed int `json:"opt_seed,omitempty"`
 	// CustomCaches: statement and portal caches are supplied through the Statements / Portals options.
 	CustomCaches bool `json:"custom_caches,omitempty"`
+	// StmtCap / PortalCap (with CustomCaches, 0 = unbounded): the user supplied caches hold at most
+	// this many names; Set / Bind of a further name returns an error (a bounded cache)
+	StmtCap   int `json:"stmt_cap,omitempty"`
+	PortalCap int `json:"portal_cap,omitempty"`
 	// ExtendTypes registers an extra type (OID 99999) through the ExtendTypes option.
 	ExtendTypes bool `json:"extend_types,omitempty"`
 }
@@ -377,8 +381,12 @@ func Start(cfg Config) *Env {
 	}
 	if cfg.CustomCaches {
 		// user supplied cache factories (thin wrappers around the default caches, implementing the optional closers too)
-		opts0 = append(opts0, opt{fn: wire.Statements(func() wire.StatementCache { return &stmtCache{inner: &wire.DefaultStatementCache{}} })})
-		opts0 = append(opts0, opt{fn: wire.Portals(func() wire.PortalCache { return &portalCache{inner: &wire.DefaultPortalCache{}} })})
+		opts0 = append(opts0, opt{fn: wire.Statements(func() wire.StatementCache {
+			return &stmtCache{inner: &wire.DefaultStatementCache{}, cap: cfg.StmtCap, names: map[string]bool{}}
+		})})
+		opts0 = append(opts0, opt{fn: wire.Portals(func() wire.PortalCache {
+			return &portalCache{inner: &wire.DefaultPortalCache{}, cap: cfg.PortalCap, names: map[string]bool{}}
+		})})
 	}
 	if cfg.ExtendTypes {
 		// a user registered type (OID 99999, text codec) must be available on every connection
@@ -1042,19 +1050,41 @@ func SortedKeys[V any](m map[string]V) []string {
 
 // ---- user supplied caches (thin wrappers) ------------------------------------
 
-type stmtCache struct{ inner *wire.DefaultStatementCache }
+type stmtCache struct {
+	inner *wire.DefaultStatementCache
+	cap   int
+	names map[string]bool // one cache per connection, used by its goroutine only
+}
+
+// ErrCacheFull is what the bounded user caches return.
+var ErrCacheFull = errors.New("verif: the cache is full")
 
 func (c *stmtCache) Set(ctx context.Context, name string, fn *wire.PreparedStatement) error {
+	if c.cap > 0 && !c.names[name] && len(c.names) >= c.cap {
+		return ErrCacheFull
+	}
+	c.names[strings.Clone(name)] = true
 	return c.inner.Set(ctx, name, fn)
 }
 func (c *stmtCache) Get(ctx context.Context, name string) (*wire.Statement, error) {
 	return c.inner.Get(ctx, name)
 }
-func (c *stmtCache) Close(ctx context.Context, name string) error { return c.inner.Close(ctx, name) }
+func (c *stmtCache) Close(ctx context.Context, name string) error {
+	delete(c.names, name)
+	return c.inner.Close(ctx, name)
+}
 
-type portalCache struct{ inner *wire.DefaultPortalCache }
+type portalCache struct {
+	inner *wire.DefaultPortalCache
+	cap   int
+	names map[string]bool
+}
 
 func (c *portalCache) Bind(ctx context.Context, name string, st *wire.Statement, params []wire.Parameter, columns []wire.FormatCode) error {
+	if c.cap > 0 && !c.names[name] && len(c.names) >= c.cap {
+		return ErrCacheFull
+	}
+	c.names[strings.Clone(name)] = true
 	return c.inner.Bind(ctx, name, st, params, columns)
 }
 func (c *portalCache) Get(ctx context.Context, name string) (*wire.Portal, error) {
@@ -1063,4 +1093,7 @@ func (c *portalCache) Get(ctx context.Context, name string) (*wire.Portal, error
 func (c *portalCache) Execute(ctx context.Context, name string, reader *buffer.Reader, writer *buffer.Writer) error {
 	return c.inner.Execute(ctx, name, reader, writer)
 }
-func (c *portalCache) Close(ctx context.Context, name string) error { return c.inner.Close(ctx, name) }
+func (c *portalCache) Close(ctx context.Context, name string) error {
+	delete(c.names, name)
+	return c.inner.Close(ctx, name)
+}
